@@ -24,13 +24,13 @@ func tset(s spec.TSet) []float64 {
 
 // obs2 is what one decode of a v2 vector lets us observe.
 type obs2 struct {
-	ok                   bool
-	o                    lib.Obj
-	base, temp, env      float64 // scores through the views available at the level
-	bSev, tSev, eSev     string
-	embBase, embTemp     float64 // through the exported embedded fields
-	hasEmbBase, hasEmbT  bool
-	tEmpty, eEmpty       bool
+	ok                  bool
+	o                   lib.Obj
+	base, temp, env     float64 // scores through the views available at the level
+	bSev, tSev, eSev    string
+	embBase, embTemp    float64 // through the exported embedded fields
+	hasEmbBase, hasEmbT bool
+	tEmpty, eEmpty      bool
 }
 
 // observe2 decodes s at level and queries every score view.
